@@ -42,7 +42,7 @@ CHECKS = {
     ),
     "C10": dict(
         technique="TLA+ state machine of genotype() over stage oracles (Pipeline.tla); TLC exhaustive (MC_Pipeline); trace validation (PipelineTrace.tla) of real genotype() runs whose stage returns are recorded and replayed as Pipeline actions; spec -> code replay: the stage-result universe of the model (gen/PipelineGen.tla) scripted into the real genotype() through stubbed stage oracles",
-        text="Every recorded real run on simulated noisy samples is explained step by step by the spec's actions: structures processed best first, major scores carry the structure difference, the refinement receives exactly the within-gap candidates, minor scores carry the major difference and are rescaled, the report is exactly the argmin band, best first, chains consistent, errors mean no report. The same validation runs on 1,400 (quick) / 30,000 (thorough) of the 149,877 stage-result scripts of the MC universe executed by the real genotype() and estimate_minor with scripted stage oracles.",
+        text="Every recorded real run on simulated noisy samples is explained step by step by the spec's actions: structures processed best first, major scores carry the structure difference, the refinement receives exactly the within-gap candidates, minor scores carry the major difference and are rescaled, the report is exactly the argmin band, best first, chains consistent, errors mean no report. The same validation runs on 1,400 (quick) / 15,000 (thorough) of the 149,877 stage-result scripts of the MC universe executed by the real genotype() and estimate_minor with scripted stage oracles.",
         design_ref="DESIGN.md §4 C10",
         note="Trusted: TLC, harness/pipeline.py recorders, harness/gen_reads.py, harness/gen_db.py. Candidates within 3e-4 of a threshold are undecided.",
         engine="Pipeline",
